@@ -341,10 +341,35 @@ def check_tokenizer(fx, rep, rule):
             return ("cont", (("push", out, mk_payload(ty, "Some", "0")), ("assign", first[1], S.lin_norm([(idx, 1)], 1))))
         return ("cont", ())
 
+    def rw_tok(t):
+        r_ = R.rw_iter(t)
+        if r_ is not None:
+            return r_
+        # `ends_with([';'])` and `ends_with(';')` are the same pattern
+        if t[0] == "call" and t[1] == "core::str::ends_with" and len(t[2]) == 2 and t[2][1] == ("lit", "char", ";"):
+            return ("call", t[1], (t[2][0], ("array", (("lit", "char", ";"),))))
+        return None
+
+    def tok_axioms(a_):
+        """an empty token cannot end with ';' (so a missing `is_empty()` test is not a different decision); a character that
+        is not a key of the primitive table (C16.1: exactly Z B C S I J F D V) has no base type, so `'['` falling into a
+        catch-all arm behind the base-type test is the same decision"""
+        for k_, v_ in a_.items():
+            if k_[0] == "eq" and v_ is True and k_[2][0] == "lit" and k_[2][1] == "char" and k_[2][2] not in PRIMS:
+                for k2, v2 in a_.items():
+                    if k2[0] == "is" and k2[2] == "Some" and k2[1] == ("call", PT, (k_[1],)) and v2 is True:
+                        return False
+        for k_, v_ in a_.items():
+            if k_[0] == "empty" and v_ is True:
+                for k2, v2 in a_.items():
+                    if k2[0] == "bool" and k2[1][0] == "call" and k2[1][1] == "core::str::ends_with" and k2[1][2][0] == k_[1] and v2 is True:
+                        return False
+        return True
+
     def effs(st):
         o_ = []
         for e in st.effects:
-            e = fc.rewrite(e, R.rw_iter)
+            e = fc.rewrite(e, rw_tok)
             if e[0] == "call" and e[1].endswith("Vec::push"):
                 o_.append(("push", e[2][0], e[2][1]))
             elif e[0] == "assign" and e[1][0] == "place":
@@ -362,10 +387,10 @@ def check_tokenizer(fx, rep, rule):
         if k == S.BRK:
             return ("end", effs(st))
         if k == S.RET:
-            return ("ret", fc.rewrite(v, R.rw_iter), effs(st))
+            return ("ret", fc.rewrite(v, rw_tok), effs(st))
         return ("cont", effs(st))
     base = len(outer["entry"].conds)
-    bad, n = fc.compare_paths(outer["paths"], ref, outcome, rw=R.rw_iter, base=base)
+    bad, n = fc.compare_paths(outer["paths"], ref, outcome, rw=rw_tok, base=base, axioms=tok_axioms)
     if not bad:
         rep.ok(rule, "%s/tokenizer/token-loop" % rule, loc=F.loc(outer["node"]),
                found="%d canonical paths: token = descriptor[token_start ..= terminator]; token_start := terminator + 1; '[' keeps token_start; unknown characters skipped" % len(outer["paths"]))
